@@ -438,8 +438,15 @@ def select(table: Table, *cols: Col | ColName | str) -> Pipeable:
 
     cols = [ColName(col) if isinstance(col, str) else col for col in cols]
 
+    selected = [preprocess_arg(col, table) for col in cols]
+    seen = set()
+    for col in selected:
+        if col._uuid in seen:
+            raise ValueError(f"column `{col.ast_repr()}` is selected more than once")
+        seen.add(col._uuid)
+
     new = copy.copy(table)
-    new._ast = Select(table._ast, [preprocess_arg(col, table) for col in cols])
+    new._ast = Select(table._ast, selected)
 
     return new
 
